@@ -171,7 +171,7 @@ ChTensordot == CanChoose("Tensordot") /\ \E a, b \in U : \E k \in 0..2 : k <= R(
                       /\ Choose([op |-> "tensordot", a |-> a, b |-> b, axa |-> axa, axb |-> axb])
 ChInner == CanChoose("Inner") /\ \E a, b \in U, dc \in BOOLEAN : CanInner(T(a), T(b), dc) /\ Choose([op |-> "inner", a |-> a, b |-> b, do_conj |-> dc])
 ChTrace == CanChoose("Trace") /\ \E s \in U : \E x, y \in 1..R(s) : R(s) >= 3 /\ CanTrace(T(s), x, y) /\ Choose([op |-> "trace", a |-> s, x |-> x, y |-> y])
-ChAdd == CanChoose("Add") /\ \E a, b \in U, z \in Scalars, o \in {"add_scaled", "iadd_prefactor_other"} :
+ChAdd == CanChoose("Add") /\ \E a, b \in U, z \in Scalars \cup {<<0, 0>>}, o \in {"add_scaled", "iadd_prefactor_other"} :
             CanAddL(T(a), T(b)) /\ (o = "iadd_prefactor_other" => Free(a)) /\ Choose([op |-> o, a |-> a, b |-> b, z |-> z])
 ChAddByLabels == CanChoose("AddByLabels") /\ \E a, b \in U, z \in {<<1, 0>>, <<-1, 0>>, <<0, 1>>}, inpl \in BOOLEAN :
                     CanAddByLabels(T(a), T(b)) /\ (inpl => Free(a)) /\ Choose([op |-> "add_by_labels", a |-> a, b |-> b, z |-> z, inpl |-> inpl])
